@@ -231,6 +231,8 @@ func H11_connack_first() {
 		// another client publishes to the resumed session's subscription during the reconnect
 		vrtExchange(pub, &specPkt{Typ: specPUBLISH, Topic: []byte("t"), Payload: []byte("m")})
 	}
+	// a connection has one writer at a time: the handshake, then the sender goroutine
+	vrtAssert("C11.nothing_written_concurrently_with_the_connack", c.blockedWriters() <= 1)
 	c.peerHold(false)
 	vrtQuiesce()
 	got, ok := vrtParse(c.peerTake())
